@@ -47,7 +47,7 @@ func builtinStringCharAt(call FunctionCall) Value {
 	str := newStringObject(call.This.string())
 	idx := int(call.Argument(0).number().int64)
 	chr := stringAt(str, idx)
-	if chr == utf8.RuneError {
+	if chr == stringAtNone {
 		return stringValue("")
 	}
 	return stringValue(string(chr))
@@ -58,7 +58,7 @@ func builtinStringCharCodeAt(call FunctionCall) Value {
 	str := newStringObject(call.This.string())
 	idx := int(call.Argument(0).number().int64)
 	chr := stringAt(str, idx)
-	if chr == utf8.RuneError {
+	if chr == stringAtNone {
 		return NaNValue()
 	}
 	return uint16Value(uint16(chr))
